@@ -55,8 +55,11 @@ Definition model_readback (lx : lexicon) (file : bytes) (offset : N) (dict_id ns
 
 (* what C05 demands: the declared entry (ids as the oracle resolved them, references re-stamped to the dictionary),
    dictionary form text df *)
-Definition expected_readback (dict_id : N) (e : entry) (df : text) : readback :=
-  RB (e_headword e) (e_surface_len e) (e_pos e) (or_headword e (e_norm e)) (to_i32 (e_dic_form e)) df
+(* POS ids of a user dictionary are numbered behind the system POS when it is compiled (nsys + k); loaded as dictionary
+   dict_id they are reported behind everything the grammar holds when it is merged: pos_offset + k *)
+Definition expected_readback (dict_id nsys pos_offset : N) (e : entry) (df : text) : readback :=
+  RB (e_headword e) (e_surface_len e)
+     (if (0 <? dict_id) && (nsys <=? e_pos e) then e_pos e - nsys + pos_offset else e_pos e) (or_headword e (e_norm e)) (to_i32 (e_dic_form e)) df
      (or_headword e (e_reading e)) (restamp dict_id (e_splits_a e)) (restamp dict_id (e_splits_b e))
      (restamp dict_id (e_word_structure e)) (e_synonyms e) (e_left e) (e_right e) (e_cost e).
 
@@ -88,7 +91,7 @@ Definition check_c05
   && (let file := file_of offset impl_words in
       let lx := lexicon_of_file file offset in
       forall3 (fun wid e_df rb => rb_eqb (model_readback lx file offset dict_id nsys pos_offset wid) rb
-                                  && rb_eqb (expected_readback dict_id (fst e_df) (snd e_df)) rb)
+                                  && rb_eqb (expected_readback dict_id nsys pos_offset (fst e_df) (snd e_df)) rb)
               (iota (List.length es) 0) (combine es dfs) rbs).
 
 (* the same for a dictionary with a known-finding entry: everything is compared except that for the listed word ids
